@@ -239,7 +239,8 @@ class ChargingNetwork(BaseSimObj):
                 f"{name}.",
                 UserWarning,
             )
-            name += "_v2"
+            while name in self.constraint_index:
+                name += "_v2"
         for station_id in current.index:
             if station_id not in self._EVSEs:
                 raise KeyError(
